@@ -2189,6 +2189,19 @@ func replayC05(ctx *Ctx, rep map[string]any) *Result {
 		res.Broken = "replay file names no scenario"
 		return res
 	}
+	if name == "streams" {
+		var opts []string
+		if l, ok := rep["opts"].([]any); ok {
+			for _, x := range l {
+				if sx, ok := x.(string); ok {
+					opts = append(opts, sx)
+				}
+			}
+		}
+		fault, _ := rep["fault"].(string)
+		st.streamsJob("streams-replay", opts, fault)
+		return res
+	}
 	s := c05Build(name, variant, ctx.Seed, filepath.Join(ctx.Work, "c05", "base-replay", "pkgsrc"))
 	if files, ok := rep["files"].(map[string]any); ok && len(files) > 0 {
 		// the exact files of the replay win over the regenerated ones
